@@ -198,7 +198,9 @@ var c02Families = []c02Family{
 	{"loader-blank-descriptions", func(k int) string {
 		// descriptions that are block strings holding nothing but blanks and blank lines (their value is empty)
 		blanks := []string{`""""""`, `"""   """`, "\"\"\"\n\n\"\"\"", "\"\"\" \t\n  \n\"\"\"", "\"\"\"\r\n\"\"\"", `""`}
-		return blanks[k%len(blanks)] + " type Query { " + rep(k, func(i int) string { return fmt.Sprintf("%s f%d(%s a: Int): Int ", blanks[i%len(blanks)], i, blanks[(i+1)%len(blanks)]) }) + "}"
+		return blanks[k%len(blanks)] + " type Query { " + rep(k, func(i int) string {
+			return fmt.Sprintf("%s f%d(%s a: Int): Int ", blanks[i%len(blanks)], i, blanks[(i+1)%len(blanks)])
+		}) + "}"
 	}, nil},
 	{"interface-clique", func(k int) string {
 		// interfaces that all implement each other and themselves (the loader takes that), one object type under them
@@ -211,12 +213,16 @@ var c02Families = []c02Family{
 		return "type Query { n: I0 } type T implements " + all + " { id: ID } " + rep(k, func(i int) string { return fmt.Sprintf("interface I%d implements %s { id: ID } ", i, all) })
 	}, func(k int) string {
 		return "{ n { ...F0 " + rep(k, func(i int) string { return fmt.Sprintf("... on I%d { ", i) }) + "id" + strings.Repeat(" }", k) + " } } " +
-			rep(k, func(i int) string { return fmt.Sprintf("fragment F%d on I%d { id ...F%d ... on T { id } } ", i, i, i+1) }) + fmt.Sprintf("fragment F%d on I0 { id }", k)
+			rep(k, func(i int) string {
+				return fmt.Sprintf("fragment F%d on I%d { id ...F%d ... on T { id } } ", i, i, i+1)
+			}) + fmt.Sprintf("fragment F%d on I0 { id }", k)
 	}},
 	{"self-implementing-interface", func(k int) string {
 		return "interface Node implements Node { id: ID next: Node } type Query { n: Node } " + rep(k, func(i int) string { return fmt.Sprintf("type T%d implements Node { id: ID next: Node } ", i) })
 	}, func(k int) string {
-		return "{ n { ...F0 } } " + rep(k, func(i int) string { return fmt.Sprintf("fragment F%d on Node { ... on T%d { next { ...F%d } } } ", i, i, i+1) }) + fmt.Sprintf("fragment F%d on Node { id }", k)
+		return "{ n { ...F0 } } " + rep(k, func(i int) string {
+			return fmt.Sprintf("fragment F%d on Node { ... on T%d { next { ...F%d } } } ", i, i, i+1)
+		}) + fmt.Sprintf("fragment F%d on Node { id }", k)
 	}},
 	{"conflict-at-depth", nil, func(k int) string {
 		// two same-named fields whose sub-selections differ only at the bottom of k levels: the one error that is reported
